@@ -110,7 +110,7 @@ func storeDump(db *store.DbSqlite) string {
 // with its hash and edge points, every reachable node with its points — in the format of storeDump.
 func busDump(nc *nats.Conn) string {
 	roots, err := client.GetNodes(nc, "root", "all", "", true)
-	if err != nil || len(roots) < 1 {
+	if noteTmo(err) != nil || len(roots) < 1 {
 		return "DUMPERR no root"
 	}
 	var es []string
@@ -137,7 +137,7 @@ func busDump(nc *nats.Conn) string {
 			nodes[n.ID] = fmt.Sprintf("N %s/%s", hxs(n.ID), strings.Join(nps, "+"))
 		}
 		kids, err := client.GetNodes(nc, n.ID, "all", "", true)
-		if err != nil {
+		if noteTmo(err) != nil {
 			return
 		}
 		for _, c := range kids {
